@@ -44,6 +44,10 @@ func (a *LabelFormatPlanner) Process(ctx *shared.PlannerContext,
 
 	return a.WrapProcess(ctx, in, GenericPlannerOps{
 		OnEntry: func(entry *shared.LogEntry) error {
+			if entry.Labels == nil {
+				// the closing io.EOF / error entry of the stream carries no label map
+				return nil
+			}
 			for _, fn := range labelFns {
 				entry.Labels = fn(entry.Labels)
 			}
